@@ -1,5 +1,6 @@
 mod byz;
 mod chain;
+mod clock;
 mod compiler;
 mod core;
 mod entropy;
@@ -35,6 +36,10 @@ fn main() {
     let args: Vec<String> = std::env::args().collect();
     exec::install_panic_hook();
     if let Err(e) = entropy::self_check() {
+        eprintln!("HARNESS ERROR: {e}");
+        std::process::exit(2);
+    }
+    if let Err(e) = clock::self_check() {
         eprintln!("HARNESS ERROR: {e}");
         std::process::exit(2);
     }
